@@ -359,7 +359,51 @@ class Sym:
                         bad = True
             if not bad:
                 res.append((cond, val))
-        return res
+        # a branch on a bool variable that several definitions feed (`let ok = a && b && c;
+        # if !ok { return .. }`): what held on every path that can have produced that value
+        extra = []
+        for (cond, val) in res:
+            c, v = cond, val
+            while c[0] == "un" and c[1] == "Not" and isinstance(v, bool):
+                c, v = c[2], (not v)
+            if c[0] == "local" and isinstance(v, (bool, int)) and fn.local_ty(c[1]) == "bool":
+                for f_ in self._implied_by_bool(c[1], bool(v)):
+                    if f_ not in res and f_ not in extra:
+                        extra.append(f_)
+        return res + extra
+
+    def _implied_by_bool(self, l, val, depth=0):
+        """facts that held whenever bool local l received the value `val` (intersection over its
+        definitions that can produce it); only facts about single-definition values are kept"""
+        if depth > 2:
+            return []
+        busy = getattr(self, "_bool_busy", set())
+        if l in busy:
+            return []
+        self._bool_busy = busy | {l}
+        try:
+            alts = []
+            for (bb, j, rv, whole) in self.defs.get(l, []):
+                if not whole:
+                    return []
+                r = self.rvalue(rv, bb, (bb, j))
+                fs = set(self.facts_at(bb))
+                if r[0] == "const" and isinstance(r[1], bool):
+                    if r[1] != val:
+                        continue
+                else:
+                    fs.add((r, val))
+                alts.append(fs)
+            if not alts:
+                return []
+            common = set.intersection(*alts)
+            out = []
+            for (c_, v_) in common:
+                if all(len(self.defs.get(x, [])) <= 1 for x in unstable_locals(c_)):
+                    out.append((c_, v_))
+            return out
+        finally:
+            self._bool_busy = busy
 
 
 def unstable_locals(e):
